@@ -239,6 +239,42 @@ def mut_break(src):
     return replace_once(src, "        stack.push_n_values(ins_out_values)\n", "        stack.push_n_values(ins_out_values)\n        if ins.stack_push_size == 0:\n            break\n")
 
 
+# ---- twin audit (same-typed names written for each other, swapped argument order)
+def mut_pop_size_only(src):
+    """(t1) the number of out values is the POP size (twin int properties; the pop itself is unchanged)"""
+    return replace_once(src, "for i in range(ins.stack_push_size):", "for i in range(ins.stack_pop_size):")
+
+
+def mut_push_size_only(src):
+    """(t2) the number of popped values is the PUSH size (twin int properties; the out values are unchanged)"""
+    return replace_once(src, "stack.pop_n_values(ins.stack_pop_size)", "stack.pop_n_values(ins.stack_push_size)")
+
+
+def mut_stored_out_values(src):
+    """(t3) the stored value carries the OUT values as arguments (twin lists of StackValue)"""
+    return replace_once(src, "ins_stack_value[ins] = KnownStackValue(ins, ins_in_values)", "ins_stack_value[ins] = KnownStackValue(ins, ins_out_values)")
+
+
+def mut_keeps_popped_slice(src):
+    """(t4) pop keeps the popped slice on the stack (the two slices of the same type: second one written twice)"""
+    return replace_once(src, "            self._values = self._values[:-count]\n", "            self._values = self._values[-count:]\n")
+
+
+def mut_ge_args(src):
+    """(a1) pop: `count >= len(self._values)` for `len(self._values) >= count`"""
+    return replace_once(src, "        if len(self._values) >= count:\n", "        if count >= len(self._values):\n")
+
+
+def mut_minus_args(src):
+    """(a2) underflow: range(len(self._values) - count)"""
+    return replace_once(src, "range(count - len(self._values))", "range(len(self._values) - count)")
+
+
+def mut_ctor_args(src):
+    """(a3) KnownStackValue(ins, i, ins_in_values): two constructor arguments exchanged"""
+    return replace_once(src, "KnownStackValue(ins, ins_in_values, i)", "KnownStackValue(ins, i, ins_in_values)")
+
+
 MUTATIONS = [
     ("(i) pop takes the values from the wrong end", SB, mut_pop_wrong_end),
     ("(i') pop returns the values reversed", SB, mut_pop_reversed),
@@ -273,6 +309,13 @@ MUTATIONS = [
     ("(s11) Instruction defines __eq__/__hash__", INS, mut_ins_eq),
     ("(s12) name Stack rebound", SB, mut_rebound),
     ("(s13) break in the block walk", SB, mut_break),
+    ("(t1) TWIN out values counted by the pop size", SB, mut_pop_size_only),
+    ("(t2) TWIN values popped by the push size", SB, mut_push_size_only),
+    ("(t3) TWIN stored value carries the out values", SB, mut_stored_out_values),
+    ("(t4) TWIN pop keeps the popped slice", SB, mut_keeps_popped_slice),
+    ("(a1) ARGS pop: count >= len(self._values)", SB, mut_ge_args),
+    ("(a2) ARGS underflow: len(self._values) - count", SB, mut_minus_args),
+    ("(a3) ARGS KnownStackValue(ins, i, ins_in_values)", SB, mut_ctor_args),
 ]
 
 
